@@ -338,6 +338,46 @@ where
     }
 
 
+    fn is_raw_eager() -> bool { std::any::type_name::<V>().contains("BytesVec") || std::any::type_name::<V>().contains("ZeroCopyVec") }
+    fn pushed_empty(&self) -> bool { self.vec.as_ref().unwrap().pushed().is_empty() }
+
+    /// C07.pages: the on-disk page index describes a gap-free run of pages starting right after the header; every page
+    /// but the last is full and compressed; a raw page is never full; counts add up; the last page ends at the region end.
+    pub fn check_pages(&self) -> Result<(), (String, String)> {
+        let db = self.db.as_ref().unwrap();
+        let names: Vec<String> = db.regions().id_to_index().keys().cloned().collect();
+        let Some(pn) = names.iter().find(|n| n.ends_with("_pages")) else { return Err(("C07.pages".into(), format!("no page-index region among {names:?}"))); };
+        let dn = pn.trim_end_matches("_pages").to_string();
+        let Some(pr) = db.get_region(pn) else { return Err(("C07.pages".into(), "page-index region missing".into())); };
+        let Some(dr) = db.get_region(&dn) else { return Err(("C07.pages".into(), format!("data region {dn} missing"))); };
+        let idx = pr.create_reader().read_all().to_vec();
+        let data_len = dr.meta().len() as u64;
+        if idx.len() % 16 != 0 { return Err(("C07.pages".into(), format!("page index length {} is not a multiple of 16", idx.len()))); }
+        let per_page: u64 = (16 * 1024 / 4) as u64;
+        let n = idx.len() / 16;
+        let mut expect_start = 32u64; // HEADER_OFFSET
+        let mut total = 0u64;
+        for i in 0..n {
+            let e = &idx[i * 16..i * 16 + 16];
+            let start = u64::from_le_bytes(e[0..8].try_into().unwrap());
+            let bytes = u32::from_le_bytes(e[8..12].try_into().unwrap()) as u64;
+            let vals = u32::from_le_bytes(e[12..16].try_into().unwrap());
+            let raw = vals & 0x8000_0000 != 0;
+            let count = (vals & 0x7fff_ffff) as u64;
+            if start != expect_start { return Err(("C07.pages".into(), format!("page {i} starts at {start}, expected {expect_start} (gap or overlap)"))); }
+            if count == 0 || count > per_page { return Err(("C07.pages".into(), format!("page {i} holds {count} values (per page {per_page})"))); }
+            if i + 1 < n && (count != per_page || raw) { return Err(("C07.pages".into(), format!("page {i} of {n} is not a full compressed page (count {count}, raw {raw})"))); }
+            if raw && count >= per_page { return Err(("C07.pages".into(), format!("raw page {i} is full ({count})"))); }
+            if raw && bytes != count * 4 { return Err(("C07.pages".into(), format!("raw page {i}: {bytes} bytes for {count} values"))); }
+            expect_start = start + bytes;
+            total += count;
+        }
+        if expect_start != data_len.max(32) { return Err(("C07.pages".into(), format!("pages end at {expect_start}, data region length is {data_len}"))); }
+        let stored = self.vec.as_ref().unwrap().stored_len() as u64;
+        if total != stored { return Err(("C07.pages".into(), format!("page index holds {total} values, stored_len() is {stored}"))); }
+        Ok(())
+    }
+
     pub fn check_all(&mut self) -> Result<u64, (String, String)> {
         let cur = self.cur.clone();
         let v = self.vec.as_ref().unwrap();
@@ -351,6 +391,10 @@ where
                 Err(e) => return Err(("C03.content".into(), format!("collect_holed failed: {e}"))),
             }
         }
+        if !V::RAW && !Self::is_raw_eager() && cur == self.written && self.pushed_empty() {
+            if let Err(e) = self.check_pages() { return Err(e); }
+        }
+        let v = self.vec.as_ref().unwrap();
         let got = v.collect();
         if got != dense { return Err(("C03.content".into(), format!("collect() = {:?} != model {:?}", got, dense))); }
         Ok(hash_of(&(len, cur.items.iter().map(|x| x.is_some()).collect::<Vec<_>>(), cur.stamp, self.commits.len(), v.stored_len())))
@@ -365,7 +409,13 @@ impl<V> Drop for World<V> {
     }
 }
 
+pub fn page_alphabet() -> Vec<Op> {
+    vec![Op::Push(1), Op::Push(4095), Op::Push(4096), Op::Push(4097), Op::Truncate(Sel::Mid), Op::Truncate(Sel::Last), Op::Truncate(Sel::First),
+         Op::Write, Op::Commit, Op::Rollback, Op::Reimport, Op::Reset]
+}
+
 pub fn alphabet(raw: bool, thorough: bool) -> Vec<Op> {
+    if std::env::var("RAC_PAGE_ALPHABET").is_ok() { return page_alphabet(); }
     let mut v = vec![Op::Push(1), Op::Push(3), Op::Truncate(Sel::First), Op::Truncate(Sel::Mid), Op::Truncate(Sel::Last), Op::Truncate(Sel::Past),
         Op::CheckedPushBad, Op::Write, Op::Commit, Op::Rollback, Op::RollbackBefore(1), Op::RollbackBefore(2), Op::Reset, Op::Reimport];
     if thorough { v.push(Op::Flush); v.push(Op::Reopen); v.push(Op::RollbackBefore(0)); }
@@ -410,8 +460,9 @@ pub fn run_format<V: StoredVec<I = usize, T = u32> + RawOps>(name: &str, depth: 
     let alpha = alphabet(V::RAW, thorough);
     let n = alpha.len();
     let mut total = Report { suite: format!("vec:{name}"), ..Default::default() };
-    total.bound = format!("format {name}: exhaustive over all histories of <= {depth} operations from an alphabet of {n} (push 1|3, truncate first|mid|last|past, write, commit, rollback, rollback_before 1|2, reset, re-import, refused checked push{}), retention {RETENTION}, from a fresh vector; plus seeded random histories of length {random_depth} for {random_secs}s",
-        if V::RAW { ", update first|last|len, delete first|mid, fill hole, take mid" } else { "" });
+    if std::env::var("RAC_PAGE_ALPHABET").is_ok() { total.suite = format!("vecpages:{name}"); }
+    total.bound = if std::env::var("RAC_PAGE_ALPHABET").is_ok() { format!("format {name}, page-crossing alphabet: exhaustive over all histories of <= {depth} operations from {{push 1|4095|4096|4097 (4096 values per page), truncate first|mid|last, write, commit, rollback, re-import, reset}}, page index decoded from disk and checked after every write; plus seeded random histories of length {random_depth} for {random_secs}s") } else { format!("format {name}: exhaustive over all histories of <= {depth} operations from an alphabet of {n} (push 1|3, truncate first|mid|last|past, write, commit, rollback, rollback_before 1|2, reset, re-import, refused checked push{}), retention {RETENTION}, from a fresh vector; plus seeded random histories of length {random_depth} for {random_secs}s",
+        if V::RAW { ", update first|last|len, delete first|mid, fill hole, take mid" } else { "" }) };
     total.exhaustive = true;
     let results: Vec<Report> = std::thread::scope(|sc| {
         let mut hs = vec![];
